@@ -123,6 +123,22 @@ pub fn leaves() -> Vec<(String, T)> {
     for s in ["ABCD", "\\ABCD", "_SB_.PCI0", "\\_SB_.PCI0", "_SB_.PCI0.LNKA", "\\_SB_.PCI0.LNKA", "A___.B0__.C1_2.D345.E___", "\\Z999.Y888.X777.W666"] {
         p("Path", T::Path(s.to_string()));
     }
+    // long paths (10 and 255 segments) on their own and as the name of named objects
+    for nseg in [10usize, 255] {
+        for rooted in [false, true] {
+            let path: String = (if rooted { "\\".to_string() } else { String::new() }) + &(0..nseg).map(|i| format!("S{:03}", i % 1000)).collect::<Vec<_>>().join(".");
+            p("Path", T::Path(path.clone()));
+            p("Name(long path)", T::Name(path.clone(), Box::new(T::One)));
+            p("Device(long path)", T::Device(path.clone(), vec![T::Zero]));
+            p("Scope(long path)", T::Scope(path.clone(), vec![]));
+            p("Scope::raw(long path)", T::ScopeRaw(path.clone(), vec![T::One]));
+            p("Method(long path)", T::Method(path.clone(), 1, false, vec![]));
+            p("MethodCall(long path)", T::MethodCall(path.clone(), vec![T::Local(0)]));
+            p("Mutex(long path)", T::Mutex(path.clone(), 3));
+            p("OpRegion(long path)", T::OpRegion(path.clone(), 0, Box::new(T::Zero), Box::new(T::One)));
+            p("PowerResource(long path)", T::PowerResource(path.clone(), 1, 2, vec![]));
+        }
+    }
     p("Name::new_field_name", T::FieldName("FLD1".into()));
     for s in ["PNP0A03", "PNP0C0F", "ACPI0007", "QEMU0002", "AAA0000", "ZZZFFFF"] {
         if s.len() == 7 {
